@@ -20,5 +20,7 @@ def run(tier, seed, work):
     for tag, period, timeout, cfg in rc.VARIANTS:
         cfg16 = cfg.replace("Trace_Relayer_", "Trace_Relayer_C16_").replace("rand", "p3t2")
         groups.append(("Trace_Relayer.tla", cfg16, rc.jobs(seed + 7, per, depth, nj, period, timeout, "c16" + tag)))
+    # the group must stay well-formed across a restart from an exported state (members awaiting removal included)
+    groups.append(("Trace_Relayer.tla", "Trace_Relayer_C16_reimport.cfg", [("c16reimp_%d" % j, ["reimport", "-n", 2 if quick else 12, "-depth", 30, "-seed", seed * 1000 + 330 + j, "-mode", "relayer"]) for j in range(4 if quick else 8)]))
     return verif.run_stateful_check("C16", tier, seed, work, mc_list=mc, groups=groups, key_fn=rc.key,
                                     level="model_checking", assumptions=ASSUME, rule=RULE)
